@@ -272,7 +272,7 @@ func c01Exec(c fw.Case) *fw.Result {
 		if c.Int("noheader") == 1 {
 			f.Header = nil
 		}
-		key := fmt.Sprintf("C01/random/seed%d/procs%d/chunk%d", c.Seed, procs, c.Int("chunk"))
+		key := fmt.Sprintf("C01/random/profile%d/hdr%v", c.Int("profile"), c.Int("noheader") == 0)
 		c01Check(res, f, procs, int(c.Int("chunk")), key)
 		nontrivial := 0
 		for _, b := range f.Blocks {
